@@ -7,7 +7,7 @@
    The too-short input (L below the number of fixed items) is NOT covered: there an item is
    read twice (known finding C03/unpacked-tuple-short-input, witnessed below). *)
 From Coq Require Import List ZArith Bool.
-From Verif Require Import TupleIdx K7Proofs.
+From Verif Require Import Core TupleIdx TyModel K7Proofs TyK7.
 From VerifGen Require Import K7.
 Import ListNotations.
 Open Scope Z_scope.
@@ -30,3 +30,13 @@ Example C03_tuple_nonvacuous :
   arg_indexes [false; true; false; false] = Some [AI 0; ASl 1 (Some (-2)); AI (-2); AI (-1)] /\
   select_all 6 [AI 0; ASl 1 (Some (-2)); AI (-2); AI (-1)] = Some [0; 1; 2; 3; 4; 5].
 Proof. split; reflexivity. Qed.
+
+(* the tie for the type-level model (TyModel.v): the index / slice plan stored by [cu] / [cp] for
+   Tuple[pre..., Unpack[mid], post...] is the output of the translated loop on the flags of that type *)
+Theorem C03_model_plan_is_code : forall (pre: list sty) (mid: sty) (post: list sty),
+  (exists us um ut, cu true (STupleU pre mid post) = UTupleU (tu_plan (length pre) (length post)) us um ut /\
+                    arg_indexes (tu_flags pre post) = Some (tu_plan (length pre) (length post))) /\
+  (exists es em et, cp true (STupleU pre mid post) = ETupleU (tu_plan (length pre) (length post)) es em et /\
+                    arg_indexes (tu_flags pre post) = Some (tu_plan (length pre) (length post))).
+Proof. intros pre mid post. split; [apply cu_plan_is_code | apply cp_plan_is_code]. Qed.
+Print Assumptions C03_model_plan_is_code.
